@@ -5,5 +5,8 @@ c_Cls == <<"vol", "gas", "sol">>
 SmallInit == \A i \in Chems : Total(tab, i) <= 2
 MCInit == Init /\ SmallInit
 MCSpec == MCInit /\ [][Next]_vars
+\* quick: one chemical may hold 2 quanta, the others at most 1
+QuickInit == Init /\ Total(tab, 1) <= 2 /\ \A i \in Chems \ {1} : Total(tab, i) <= 1
+QuickSpec == QuickInit /\ [][Next]_vars
 Depth == Len(path) <= 3
 =============================================================================
